@@ -1,6 +1,7 @@
 package harness
 
 import (
+	"strings"
 	"fmt"
 	"math"
 	"math/rand"
@@ -38,7 +39,7 @@ func (c10) Gen(rng *rand.Rand, tier string, k int) *Case {
 	c := &Case{Family: "repo", Impl: []string{"memory", "file", "sql"}[rng.Intn(3)]}
 	c.Entity = "repository." + c.Impl
 	if c.Impl == "file" {
-		c.Mode = []string{"", "", "empty-file-A", "header-only-A"}[rng.Intn(4)]
+		c.Mode = []string{"", "", "empty-file-A", "header-only-A", "dir-at-Z", "long-Z"}[rng.Intn(6)]
 	}
 	// three names per case: tickers with dots, names ending in the letters of the file suffix or
 	// in a dot, names that differ only in case, a blank inside
@@ -55,6 +56,9 @@ func (c10) Gen(rng *rand.Rand, tier string, k int) *Case {
 		switch x := rng.Intn(10); {
 		case x < 4:
 			cnt := rng.Intn(5)
+			if rng.Intn(50) == 0 {
+				cnt = 257 + rng.Intn(400) // a long history in one Append (more than any batch size)
+			}
 			gap := rng.Intn(3)
 			if next[name] > 2 && rng.Intn(4) == 0 {
 				// backfill or same-day-again: dates at or before what is already stored (append order
@@ -233,6 +237,11 @@ func (c10) Run(c *Case, st *Stats) []Violation {
 				case "header-only-A":
 					os.WriteFile(filepath.Join(dir, "A.csv"), []byte("Date,Open,High,Low,Close,Volume\n"), 0o644)
 					preexisting["A"] = true
+				case "dir-at-Z":
+					// the never-appended asset's file name is taken by a directory: an asset without
+					// snapshots whose reads fail for another reason than "no such file"
+					os.Mkdir(filepath.Join(dir, "Z.csv"), 0o755)
+					preexisting["Z"] = true // Assets() goes by the directory listing: the name exists, without snapshots
 				}
 				repo = asset.NewFileSystemRepository(dir)
 			case "sql":
@@ -283,6 +292,9 @@ func (c10) Run(c *Case, st *Stats) []Violation {
 			var heldWant []*asset.Snapshot
 			heldAt := -1
 			for i, op := range c.Ops {
+				if c.Mode == "long-Z" && op.Name == "Z" {
+					op.Name = strings.Repeat("z", 300) // a never-appended name too long for a file name
+				}
 				regime := prev + ">" + op.Op
 				known := appended[op.Name] || preexisting[op.Name]
 				holds := len(model[op.Name]) > 0
